@@ -92,6 +92,8 @@ class Node:
             journal_reads=self.knobs.get("journal_reads", True),
             rawmax=self.knobs.get("rawmax", 0),
         )
+        if self.role == "worker" and self.knobs.get("worker_plan"):
+            self.disk.plan = [dict(p) for p in self.knobs["worker_plan"]]
         self.clock = VirtualClock(random.Random(rng.fork("clock").randrange(1 << 30)))
         self.poolsim = PoolSim(
             pick=self.chooser.pick,
